@@ -264,6 +264,11 @@ def check(chk):
     chk.require('C02.vint', 10)
     chk.require('C02.coll', 60)
 
+    # a `date` value is the day number of the instant: floor division also before 1970 (the Date helper is what the date codec serializes)
+    chk.rule('C02.date', 'Date computes its day number by floor division of the epoch seconds (shared with C34)')
+    chk.borrow('C34', {'C34.datefmt': 'C02.date'}, 'a datetime before 1970 with a time of day is encoded as the following day')
+
+
 
 def _eval_bl(folder, node, env):
     """fold with support for (<int expr>).bit_length()"""
